@@ -61,12 +61,15 @@ func c14ProbeSet(c *core.Ctx) [][]byte {
 var c14Limits = []uint32{0, 3072, 2}
 
 func opFromInt(v int) extOp {
-	return extOp{Dup: v >= 10000, Attach: (v % 10000) / 100, Pred: (v / 10) % 10, Aliases: v % 10}
+	return extOp{Same: v >= 20000, Dup: v%20000 >= 10000, Attach: (v % 10000) / 100, Pred: (v / 10) % 10, Aliases: v % 10}
 }
 func opToInt(o extOp) int {
 	v := o.Attach*100 + o.Pred*10 + o.Aliases
 	if o.Dup {
 		v += 10000
+	}
+	if o.Same {
+		v += 20000
 	}
 	return v
 }
@@ -206,6 +209,13 @@ func c14Check(c *core.Ctx, hist []extOp, probes [][]byte, count func(nontrivial 
 			if m.String() != want.name || m.Extension() != want.ext {
 				return false, "C14/lookup-wrong-node", fmt.Sprintf("history [%s]: Lookup(%q) = %s(%s), the first node of that name in the tree is %s(%s)", t.hist, n, m.String(), m.Extension(), want.name, want.ext)
 			}
+			if want.parent == nil {
+				// the name is the root's own (an extension registered under the root's MIME string)
+				if m.Parent() != nil {
+					return false, "C14/lookup-wrong-parent", fmt.Sprintf("history [%s]: Lookup(%q) should be the root, but has parent %s", t.hist, n, m.Parent().String())
+				}
+				continue
+			}
 			if m.Parent() == nil || m.Parent().String() != want.parent.name || m.Parent().Extension() != want.parent.ext {
 				ps := "<nil>"
 				if m.Parent() != nil {
@@ -310,25 +320,17 @@ func c14Fresh(c *core.Ctx, args []string) int {
 			aliases = append(aliases, fmt.Sprintf("x/e%d-alias%d", k+1, i+1))
 		}
 		pred := extPreds[op.Pred].f
-		switch extAttach[op.Attach] {
-		case "root-pkg":
+		parentName, target, viaHandle := extTarget(op, prev, handle1)
+		if viaHandle {
+			parentName = bare(handle1.String())
+		}
+		if op.Same {
+			name = parentName
+		}
+		if target == nil {
 			mimetype.Extend(pred, name, ext, aliases...)
-		case "root-lookup":
-			mimetype.Lookup("application/octet-stream").Extend(pred, name, ext, aliases...)
-		case "prev-ext":
-			if prev == "" {
-				mimetype.Extend(pred, name, ext, aliases...)
-			} else {
-				mimetype.Lookup(prev).Extend(pred, name, ext, aliases...)
-			}
-		case "handle-1":
-			if handle1 == nil {
-				mimetype.Extend(pred, name, ext, aliases...)
-			} else {
-				handle1.Extend(pred, name, ext, aliases...)
-			}
-		default:
-			mimetype.Lookup(extAttach[op.Attach]).Extend(pred, name, ext, aliases...)
+		} else {
+			target.Extend(pred, name, ext, aliases...)
 		}
 		if k == 0 {
 			handle1 = mimetype.Lookup(name)
@@ -479,6 +481,47 @@ func c14Run(c *core.Ctx) {
 								}
 							}
 						}
+					}
+				}
+			}
+		}
+		hist = nil
+	}
+	// (3c) extensions that keep the MIME string of their attachment point and
+	// only add a file extension (as the built-in .aaf does under a namesake of
+	// the root): every pair (same-name extension, ordinary extension)
+	{
+		at := []int{0, 2, 3, 4, 5}
+		pr := []int{1, 2, 3, 4, 5, 6}
+		for _, a1 := range at {
+			for _, p1 := range pr {
+				if !c.Next() || c.Expired() {
+					continue
+				}
+				one := []extOp{{Attach: a1, Pred: p1, Same: true, Aliases: p1 % 2}}
+				hs := [][]extOp{one}
+				for _, a2 := range []int{0, 2, 8, 9} {
+					for _, p2 := range []int{1, 2, 4} {
+						hs = append(hs, []extOp{one[0], {Attach: a2, Pred: p2, Aliases: 1}}, []extOp{{Attach: a2 % 8, Pred: p2}, one[0]})
+					}
+				}
+				for _, h := range hs {
+					hist = h
+					c.R.States++
+					ok, _, _ := c14Check(c, hist, probes, func(acc bool) {
+						c.R.Transitions++
+						c.R.Evals++
+						c.R.Traces++
+						if acc {
+							c.R.Nontrivial++
+						}
+					})
+					if !ok {
+						cs.Ints = nil
+						for _, o := range hist {
+							cs.Ints = append(cs.Ints, opToInt(o))
+						}
+						c.Check(cs)
 					}
 				}
 			}
